@@ -157,6 +157,9 @@ def _scores(st, dom, idxs, extra, only=None):
     rows = list(product(*[range(c) for c in dom]))
     data = [rows[i] for i in idxs]
     df = pd.DataFrame(data, columns=COLS)
+    if len(df) and sum(map(sum, data)) % 3 == 1:
+        # the frame's index is not content: descending, gapped labels on every third data set
+        df.index = [3 * (len(df) - i) + 2 for i in range(len(df))]
     ddom = tuple(dom)
     state_names = None
     if extra:
